@@ -78,6 +78,20 @@ def scenario(sid, seed=0):
         )
         kinds = {"u": "QNT", "v": "QNT", "w": "QNT", "c": "CAT"}
         ranks = {}
+    elif sid == 5:
+        # two categorical features sharing their vocabulary (one value is unseen for `home` but frequent for `work`),
+        # both with rare categories (default group); an ordinal feature stored as numbers with a ranking of strings
+        n = 24
+        X = pd.DataFrame(
+            {
+                "home": pd.Series(["A"] * 9 + ["B"] * 9 + ["C"] * 4 + ["r1", "r2"], dtype=object),
+                "work": pd.Series((["D", "A", "B"] * 8)[:22] + ["w1", "w2"], dtype=object),
+                "q": pd.Series([float(i % 4) for i in range(n)], dtype=float),
+                "r": pd.Series([1.0, 2.0, 3.0] * 8, dtype=object),
+            }
+        )
+        kinds = {"home": "CAT", "work": "CAT", "q": "QNT", "r": "ORD"}
+        ranks = {"r": ["1", "2", "3"]}
     else:
         n = 24
         X = pd.DataFrame(
@@ -91,6 +105,20 @@ def scenario(sid, seed=0):
         kinds = {"id": "CAT", "q1": "QNT", "q2": "QNT", "q3": "QNT"}
         ranks = {}
     return X, kinds, ranks
+
+
+def new_frame(sid, X):
+    """a frame to transform after fit (values seen by one feature but not by another); None for most scenarios"""
+    if sid != 5:
+        return None
+    return pd.DataFrame(
+        {
+            "home": pd.Series(["D", "A", "zz", "B"], dtype=object),
+            "work": pd.Series(["A", "D", "D", "zz"], dtype=object),
+            "q": pd.Series([0.0, 1.0, 2.5, -1.0], dtype=float),
+            "r": pd.Series([3.0, 1.0, 2.0, 2.0], dtype=object),
+        }
+    )
 
 
 def target(cls, n):
@@ -116,9 +144,15 @@ def build(cls, feats, kinds, ranks, n_jobs):
     return ContinuousCarver(**kw)
 
 
-def outcome(obj, X, feats):
+def outcome(obj, X, feats, Xnew=None):
     out = {}
     tr = obj.transform(X.copy())
+    trn = None
+    if Xnew is not None:
+        try:
+            trn = obj.transform(Xnew.copy())
+        except Exception as exc:  # noqa
+            trn = f"raises {type(exc).__name__}"
     for f in feats:
         if f not in obj.features:
             out[f] = ["dropped", None, [("nan" if isnan(v) else v) for v in tr[f].tolist()] == [("nan" if isnan(v) else v) for v in X[f].tolist()]]
@@ -126,6 +160,8 @@ def outcome(obj, X, feats):
         o = obj.values_orders[f]
         canon = [[list(norm(k)), sorted(list(norm(v)) for v in o.content[k])] for k in o]
         out[f] = ["kept", canon, [("nan" if isnan(v) else (float(v) if isinstance(v, (int, float, np.integer, np.floating)) else str(v))) for v in tr[f].tolist()]]
+        if trn is not None:
+            out[f].append(trn if isinstance(trn, str) else [("nan" if isnan(v) else (float(v) if isinstance(v, (int, float, np.integer, np.floating)) else str(v))) for v in trn[f].tolist()])
     return json.loads(json.dumps(out))
 
 
@@ -136,7 +172,10 @@ def fit_outcome(cls, sid, seed, feats, n_jobs, columns=None):
     y = target(cls, len(X))
     obj = build(cls, list(feats), kinds, ranks, n_jobs)
     obj.fit(X, y)
-    return outcome(obj, X, list(feats))
+    Xnew = new_frame(sid, X)
+    if Xnew is not None and columns is not None:
+        Xnew = Xnew[list(columns)]
+    return outcome(obj, X, list(feats), Xnew)
 
 
 _REF = {}
@@ -160,7 +199,7 @@ def compare(got, ref, feats):
     for f in feats:
         if got.get(f) != ref[f]:
             a, b = got.get(f), ref[f]
-            what = "kept/dropped" if a[0] != b[0] else ("values_orders" if a[1] != b[1] else "transform output")
+            what = "kept/dropped" if a[0] != b[0] else ("values_orders" if a[1] != b[1] else ("transform output" if a[2] != b[2] else "transform of a new frame"))
             diffs.append(f"{f}: {what} differs from the single-feature sequential fit")
     return diffs
 
@@ -223,7 +262,7 @@ def real_run(args):
 
 
 def run(tier, seed, rep):
-    sids = [0, 1, 3, 4] if tier == "quick" else [0, 1, 2, 3, 4]
+    sids = [0, 1, 3, 4, 5] if tier == "quick" else [0, 1, 2, 3, 4, 5]
     cases = []
     # (a) subsets, orderings of the feature list, column orders -- sequential, no seams
     for cls in CLASSES:
